@@ -19,6 +19,7 @@ def gen(rng, thorough):
     ops = ["T %d" % T0]
     now = T0
     owned = {}            # uid -> owner (accepted, as the generator intends; confirmed from replies)
+    autos = {}            # tasks without UID line: name -> (what the command is made from, owner)
     uidn = 0
 
     def add_some(k, pool=None):
@@ -39,8 +40,12 @@ def gen(rng, thorough):
                 n = rng.choice([2, 3, 5])
                 step = rng.choice([10, 60, 3600])
                 occ = [now + 100 + i * step for i in range(n)]
-                items.append(TaskSpec(uid, occ, rng.choice([None, 1, 2]), rng.choice([0, 5000])))
-                owned[uid] = peer
+                # one in eight without UID line: filed, listed and saved under the name made from the command's hash
+                spec = TaskSpec(uid, occ, rng.choice([None, 1, 2]), rng.choice([0, 5000]), uidform="auto" if rng.random() < 0.125 else None)
+                items.append(spec)
+                owned[spec.uid] = peer
+                if spec.uidform:
+                    autos[spec.uid] = (uid, peer)
             if items and rng.random() < 0.2:
                 # an accepted change followed by a refused one in the same message (a cancel for a task that does not exist)
                 items.append(("cancel", "ghost%d" % uidn))
@@ -87,6 +92,17 @@ def gen(rng, thorough):
     if rng.random() < 0.5:
         now += 50
         ops += ["T %d" % now] + add_some(1) + ["R", "L", "Q", "QM"]
+        live = sorted(k for k in autos if k in owned)
+        if live:
+            # the restarted daemon must know a task without UID line as the same task: sent again it is replaced, not
+            # doubled, and the name it is listed under cancels it
+            k = rng.choice(live)
+            base, peer = autos[k]
+            if rng.random() < 0.5:
+                ops += [request(peer, [TaskSpec(base, [now + 300, now + 400], None, 0, uidform="auto")])[0], "Q"]
+            else:
+                ops += [request(peer, [("cancel", k)])[0], "Q"]
+                del owned[k]
     return ops
 
 
@@ -115,7 +131,7 @@ def check(ops, answer):
     now = 0
     armed = None          # a cut or fault waiting for the next checkpoint: the victim's uid
     clean = False         # the last checkpoint ran to its end without an injected fault
-    for op, g in zip(ops, groups):
+    for opi, (op, g) in enumerate(zip(ops, groups)):
         w = op.split()
         if w[0] in ("T", "TX"):
             now = int(w[1])
@@ -141,11 +157,13 @@ def check(ops, answer):
                         limit[uid] = int(tok.split("|")[3])
                     else:
                         owner.pop(uid, None)
+                elif tok.startswith("U|") and owner.get(tok[2:]) == peer and lastocc.get(tok[2:], 0) > now + 1 and not crashed:
+                    return "user %d's cancel of its task %s (accepted, still to run) is refused" % (peer, tok[2:])
         elif w[0] == "L":
             cur = uids_of(g)
             for u, (uids, torn) in cur.items():
                 if torn:
-                    return "queue file of user %d is not a complete calendar after %s" % (u, " ; ".join(o.split()[0] for o in ops[:ops.index(op)][-3:]))
+                    return "queue file of user %d is not a complete calendar after %s" % (u, " ; ".join(o.split()[0] for o in ops[:opi][-3:]))
                 new = {x for x, o in owner.items() if o == u}
                 old = files.get(u, (set(), False))[0]
                 if uids != new and uids != old:
@@ -176,7 +194,9 @@ def check(ops, answer):
         elif w[0] == "Q":
             rows = [r.split(":") for r in g.split(",") if r]
             table = {r[0]: int(r[1]) for r in rows}
-            i = ops.index(op)
+            if len(table) != len(rows):
+                return "the daemon schedules two tasks under one UID: %s" % sorted(r[0] for r in rows if sum(1 for q in rows if q[0] == r[0]) > 1)[:2]
+            i = opi
             prev = [o.split()[0] for o in ops[:i]]
             restarted = ("R" in prev) or any(x == "CRASH" for x in groups[:i])
             if restarted and not any(o.startswith("A ") for o in ops[max(j for j, x in enumerate(groups[:i]) if x in ("CRASH", "r")) + 1:i]):
